@@ -30,6 +30,7 @@ def declare(rep):
     rep.rule("C03.pair", "coupled pair: averaging resets preserve total momentum and force; both nodes get the same displacement", floor=0)
     rep.rule("C03.force-reset", "every node whose position is advanced ends the block with force_ == 0", floor=1)
     rep.rule("C03.static", "position/momentum writes are dominated by the owning cell's is_static_ test; couplings only between type-0 cells; only ecm/static classes set is_static_", floor=3)
+    rep.rule("C03.group-owner", "contact model 2: a group of mutually coupled nodes is integrated by exactly one of its members - the node whose cell index is greater than EVERY key of its coupled_nodes_map_ (all_of over the whole map, or a comparison with its largest key)", floor=0)
     rep.rule("C03.time", "simulation_time_ has exactly one writer '+= dt_' outside every loop; dt_ and damping_coeff_ are wired to time_step_ and damping_coefficient_", floor=3)
 
 
@@ -73,6 +74,8 @@ def run(rep, prog, tier):
         analyse_block(rep, prog, fn, fi, blk, cm, dm)
     static_rules(rep, prog, fn, fi, cm)
     time_rules(rep, prog, fn, fi)
+    if cm == 2:
+        group_owner(rep, prog, fn, fi)
 
 
 def analyse_block(rep, prog, fn, fi, blk, cm, dm):
@@ -463,3 +466,71 @@ def time_rules(rep, prog, fn, fi):
             rep.ok("C03.time", prog, c, None, "%s initialised from %s" % (field, g))
         else:
             rep.violation("C03.time", prog, c, None, "%s wired to %s" % (field, g or "nothing"), "time_integration_scheme::%s must be initialised from the parameter %s, found '%s'" % (field, src, g))
+
+
+def group_owner(rep, prog, fn, fi):
+    """CM 2: the loops that integrate a coupled group run only for the member whose cell index exceeds every key of the map"""
+    from ..model import facts_at, expand
+    def head(l):
+        if l.get("k") == "CXXForRangeStmt":
+            return render(l.get("range") or {})
+        i = l.get("init") or {}
+        return " ".join(render(d_.get("init") or {}) for d_ in i.get("decls", []) if isinstance(d_, dict)) if i.get("k") == "DeclStmt" else render(i)
+    loops = [l for l in walk(fn["body"]) if l.get("k") in ("ForStmt", "CXXForRangeStmt") and "coupled_nodes_map_" in head(l)]
+    if not loops:
+        raise AnalysisBroken("update_nodes_positions (contact model 2): no loop over coupled_nodes_map_ found")
+    first = min(loops, key=lambda l: fi.order[id(l)])
+    verdicts = []
+    for atom, truth in facts_at(fn, fi, first):
+        a = strip(atom)
+        # x == false / x == true
+        while a.get("k") == "BinaryOperator" and a.get("op") in ("==", "!=") and any(strip(c_).get("k") == "CXXBoolLiteralExpr" for c_ in a["c"]):
+            lit = [strip(c_) for c_ in a["c"] if strip(c_).get("k") == "CXXBoolLiteralExpr"][0]
+            other = [c_ for c_ in a["c"] if strip(c_).get("k") != "CXXBoolLiteralExpr"]
+            if not other:
+                break
+            truth = truth if (bool(lit.get("v")) == (a["op"] == "==")) else (not truth)
+            a = strip(expand(fn, other[0]))
+            while a.get("k") in ("ParenExpr", "ExprWithCleanups") and a.get("c"):
+                a = strip(a["c"][0])
+        txt = render(a).replace(" ", "").replace("this->", "")
+        if "coupled_nodes_map_" not in txt and not any(is_call(x) and x.get("callee", "").startswith("std::all_of") for x in walk(a)):
+            continue
+        if not truth:
+            verdicts.append(("unknown", atom, "the group is integrated when '%s' does not hold" % short(atom, 60)))
+            continue
+        allof = [x for x in walk(a) if is_call(x) and x.get("callee", "").startswith("std::all_of") and len(call_args(x)) == 3]
+        if allof:
+            b_, e_, lam = call_args(allof[0])
+            bt, et = render(b_).replace(" ", ""), render(e_).replace(" ", "")
+            lams = [x for x in walk(lam) if x.get("k") == "LambdaExpr"]
+            okr = bt.endswith("coupled_nodes_map_.begin()") and et.endswith("coupled_nodes_map_.end()") and bt[:-8] == et[:-6]
+            okp = False
+            if lams and lams[0].get("params"):
+                pd = lams[0]["params"][0]["did"]
+                rets = [r for r in walk(lams[0]["body"]) if r.get("k") == "ReturnStmt" and isinstance(r.get("value"), dict)]
+                if len(rets) == 1:
+                    g = strip(rets[0]["value"])
+                    while g.get("k") in ("ParenExpr", "ExprWithCleanups") and g.get("c"):
+                        g = strip(g["c"][0])
+                    if g.get("k") == "BinaryOperator" and g.get("op") in (">", "<"):
+                        big, small = (g["c"][0], g["c"][1]) if g["op"] == ">" else (g["c"][1], g["c"][0])
+                        sm = strip(small)
+                        first_of_param = (".first" in render(sm).replace(" ", "") or (sm.get("k") == "CXXDependentScopeMemberExpr" and sm.get("member") == "first")) and any(y.get("k") == "DeclRefExpr" and (y.get("ref") or {}).get("did") == pd for y in walk(sm))
+                        okp = "get_local_id" in render(big) and first_of_param
+            verdicts.append(("ok" if okr and okp else "unknown", atom, "std::all_of over the whole map with 'cell index > key'" if okr and okp else "an all_of whose range / predicate is not 'every key is smaller than the cell index'"))
+        elif re.search(r"coupled_nodes_map_\.(c?rbegin\(\)|c?end\(\)\)?->first)", txt) is None and re.search(r"get_local_id\(\)>[\w.>()-]*coupled_nodes_map_\.c?begin\(\)->first", txt):
+            verdicts.append(("bad", atom, "the cell index is compared with coupled_nodes_map_.begin()->first, the SMALLEST key of the ordered map"))
+        elif re.search(r"get_local_id\(\)>[\w.>()-]*coupled_nodes_map_\.c?rbegin\(\)->first", txt) or re.search(r"get_local_id\(\)>std::prev\([\w.>()-]*coupled_nodes_map_\.c?end\(\)\)->first", txt):
+            verdicts.append(("ok", atom, "the cell index is compared with the largest key (rbegin / prev(end)) of the ordered map"))
+        else:
+            verdicts.append(("unknown", atom, "'%s'" % short(atom, 70)))
+    if any(v[0] == "bad" for v in verdicts):
+        v = [v for v in verdicts if v[0] == "bad"][0]
+        rep.violation("C03.group-owner", prog, fn, v[1], "group owner decided against the smallest key",
+                      "update_nodes_positions (contact model 2) integrates the group of a coupled node when %s: with three or more mutually coupled nodes (a tri-cellular junction) every member except the one with the smallest index passes the test, so the group is integrated several times in one update - the nodes move by a multiple of the step and the damping is applied repeatedly" % v[2])
+    elif any(v[0] == "ok" for v in verdicts):
+        v = [v for v in verdicts if v[0] == "ok"][0]
+        rep.ok("C03.group-owner", prog, fn, v[1], "the coupled group is integrated only by the member for which %s" % v[2])
+    else:
+        raise AnalysisBroken("update_nodes_positions (contact model 2): the condition under which a node integrates its coupled group is not in a form this checker decides (%s)" % "; ".join(v[2] for v in verdicts)[:200])
